@@ -218,6 +218,10 @@ func c17Run(i int64, seed uint64, r *fw.Rec) {
 		c17Invalid(rr, r)
 		return
 	}
+	if i%25 == 2 {
+		c17Related(rr, r)
+		return
+	}
 	pat := g.alt(0)
 	if g.r.Intn(8) == 0 {
 		// the same text matched through different groups: an assertion decides
@@ -471,4 +475,56 @@ func c17Invalid(rr *prng.R, r *fw.Rec) {
 	}
 	r.Held()
 	r.Sample("invalid", map[string]any{"prog": prog, "error": co.Err.Error()})
+}
+
+
+// c17Related: two literals of which one is a prefix of the other, applied one
+// after the other (in one process) to subjects chosen so that pattern text +
+// subject is the same string both times: what the first evaluation found must
+// not show through in the second.
+func c17Related(rr *prng.R, r *fw.Rec) {
+	n := rr.Range(3, 7)
+	var sb strings.Builder
+	for k := 0; k < n; k++ {
+		sb.WriteString(rr.Pick("a", "b", "a", "c"))
+	}
+	w := sb.String()
+	i := rr.Range(1, n-2)
+	j := rr.Range(i+1, n-1)
+	pairs := [][2]string{{w[:i], w[i:]}, {w[:j], w[j:]}}
+	if rr.Bool() {
+		pairs[0], pairs[1] = pairs[1], pairs[0]
+	}
+	fn := rr.Pick("contains", "match", "split", "replace")
+	desc := fmt.Sprintf("$%s with /%s/ on %q, then /%s/ on %q", fn, pairs[0][0], pairs[0][1], pairs[1][0], pairs[1][1])
+	r.Begin(desc, "")
+	r.Tag("prefix-related-literals")
+	r.Nontrivial(desc)
+	for _, p := range pairs {
+		re := regexp.MustCompile(p[0])
+		ms := allMatches(re, p[1])
+		var prog string
+		var want interface{}
+		switch fn {
+		case "contains":
+			prog, want = "$contains(s, /"+p[0]+"/)", len(ms) > 0
+		case "match":
+			prog = "$count($match(s, /" + p[0] + "/))"
+			want = float64(len(ms))
+		case "split":
+			prog = "$join($split(s, /" + p[0] + "/), \"|\")"
+			want = strings.Join(re.Split(p[1], -1), "|")
+		default:
+			prog = "$replace(s, /" + p[0] + "/, \"-\")"
+			want = re.ReplaceAllString(p[1], "-")
+		}
+		r.Evals(1)
+		o := obs.Run(prog, map[string]interface{}{"s": p[1]})
+		if o.Kind != "value" || !obs.Equal(obs.Normalize(o.Val, nil), want) {
+			r.Violation("mismatch:after-a-related-evaluation", fmt.Sprintf("%s on %q gave %s, the engine says %v (sequence: %s)", prog, p[1], o.String(), want, desc), nil)
+			return
+		}
+	}
+	r.Outcome("compared")
+	r.Held()
 }
